@@ -19,7 +19,7 @@ TECHNIQUE = ('Hypothesis-generated collections of synthetic Bounded items whose 
 RULE = ("A case is a collection of 1-7 items plus a style; an item is a finite script of nested integer intervals ending "
         "in a single value, advanced one entry per tighten_bounds() (so which end moves, by how much and how slowly is "
         "generated: one-sided creeping, jumps, ties, identical intervals, already-definitive items, a single item). "
-        "Style 'strict' returns True iff it advanced; style 'collapse-false' returns False from the very call that "
+        "A quarter of the collections contain falsy items (__bool__ False, __len__ 0, as a finished IterativeTighteningSearch is); a third carry caller-supplied initial_bounds, some of which reuse the same Range object for a second search over other items (the Range must read the same afterwards and the second search must be right). Style 'strict' returns True iff it advanced; style 'collapse-false' returns False from the very call that "
         "collapses it to a single value (allowed by the Edit docstring, and what EditDistance does). Ranges 0..8 in the "
         "bulk, up to 10^6 in a minority; scripts have at most ~40 steps. Bounded exhaustive: all collections of <= 3 items over range 0..3 with all "
         "monotone schedules of <= 2 steps (quick: <= 2 items; thorough: 3). Oracle: IterativeTighteningSearch(items)."
@@ -38,7 +38,7 @@ MANIFEST_TEXT = ("Generated tightening schedules (including slow one-sided conve
                  "Exhaustive for tiny collections, sampled beyond.")
 MANIFEST_NOTE = "Trusts the synthetic Item class in this module (a list of intervals and an index)."
 DESIGN_REF = 'DESIGN.md section 3, C17'
-SHRINK = {'lists': ['items'], 'enums': {'style': 'strict', 'initial': None}}
+SHRINK = {'lists': ['items', 'second', 'falsy'], 'enums': {'style': 'strict', 'initial': None}}
 
 CALL_BUDGET = 20000
 
@@ -72,6 +72,16 @@ class Item:
         return f"I{self.name}{self.steps}"
 
 
+class FalsyItem(Item):
+    """a Bounded object that is falsy (graphtage's own IterativeTighteningSearch is one once it is finished, and sized
+    compound objects are when empty): selection code must test `is None`, not truthiness"""
+    def __bool__(self):
+        return False
+
+    def __len__(self):
+        return 0
+
+
 def valid_steps(steps):
     if isinstance(steps, list) and len(steps) >= 2 and isinstance(steps[0], list) and len(steps[0]) == 2 and steps[0][1] is None:
         # an item whose first interval has no upper bound; it becomes finite on its first refinement
@@ -89,6 +99,16 @@ def valid_steps(steps):
 def valid(case):
     if not (case.get('style') in ('strict', 'collapse-false') and isinstance(case.get('items'), list) and
             len(case['items']) >= 1 and all(valid_steps(s) for s in case['items'])):
+        return False
+    if case.get('second') is not None:
+        if not (isinstance(case['second'], list) and case['second'] and all(valid_steps(s) and s[0][1] is not None for s in case['second'])
+                and case.get('initial') is not None):
+            return False
+        m2 = min(s[-1][0] for s in case['second'])
+        i0 = case['initial']
+        if not ((i0[0] is None or i0[0] <= m2) and (i0[1] is None or m2 <= i0[1])):
+            return False
+    if case.get('falsy') is not None and not all(isinstance(i, int) for i in case['falsy']):
         return False
     init = case.get('initial')
     if init is not None:
@@ -142,9 +162,20 @@ def collections(draw):
     if draw(st.integers(0, 2)) == 0:
         # the caller knows (correct) bounds on the optimum: often tight on one or both sides
         m = min(s[-1][0] for s in items)
-        lo = draw(st.sampled_from([None, m, m, m - 1, m - 3]))
-        hi = draw(st.sampled_from([None, m, m, m + 1, m + 3]))
-        case['initial'] = [lo, hi]
+        if draw(st.integers(0, 2)) == 0 and not any(s[0][1] is None for s in items):
+            # ... and uses the same Range object for a second search over other items (the bounds hold for both)
+            second = [draw(item_steps(0, hi)) for _ in range(draw(st.integers(1, 4)))]
+            m2 = min(s[-1][0] for s in second)
+            lo = draw(st.sampled_from([None, min(m, m2), min(m, m2) - 2]))
+            hi2 = draw(st.sampled_from([None, max(m, m2), max(m, m2) + 2]))
+            case['initial'] = [lo, hi2]
+            case['second'] = second
+        else:
+            lo = draw(st.sampled_from([None, m, m, m - 1, m - 3]))
+            hi = draw(st.sampled_from([None, m, m, m + 1, m + 3]))
+            case['initial'] = [lo, hi]
+    if draw(st.integers(0, 3)) == 0:
+        case['falsy'] = sorted(draw(st.sets(st.integers(0, n - 1), min_size=1, max_size=n)))
     return case
 
 
@@ -204,8 +235,10 @@ def check(case):
     out = Outcome()
     stepss, style = case['items'], case.get('style', 'strict')
 
-    def mk():
-        return [Item(i, s, style) for i, s in enumerate(stepss)]
+    falsy = set(case.get('falsy') or ())
+
+    def mk(ss=None):
+        return [(FalsyItem if i in falsy else Item)(i, s, style) for i, s in enumerate(stepss if ss is None else ss)]
 
     finals = [s[-1][0] for s in stepss]
     m = min(finals)
@@ -218,8 +251,8 @@ def check(case):
         with guard('IterativeTighteningSearch.search'):
             if case.get('initial') is not None:
                 lo, hi = case['initial']
-                s = IterativeTighteningSearch(iter(its), initial_bounds=Range(NEGATIVE_INFINITY if lo is None else lo,
-                                                                             POSITIVE_INFINITY if hi is None else hi))
+                known = Range(NEGATIVE_INFINITY if lo is None else lo, POSITIVE_INFINITY if hi is None else hi)
+                s = IterativeTighteningSearch(iter(its), initial_bounds=known)
             else:
                 s = IterativeTighteningSearch(iter(its))
             best = s.search()
@@ -235,6 +268,23 @@ def check(case):
         # its "progress" cannot be read off the interval: only its results are checked then)
         analyse(final_of, lambda k, d: out.fail('search-' + k, d) if k.split(':')[-1] == 'IterativeTighteningSearch' else None)
     MON.reset()
+    if case.get('initial') is not None:
+        lo, hi = case['initial']
+        now = (None if known.lower_bound == NEGATIVE_INFINITY else known.lower_bound, None if known.upper_bound == POSITIVE_INFINITY else known.upper_bound)
+        if now != (lo, hi):
+            out.fail('caller-range-modified', f"the Range passed as initial_bounds was [{lo}, {hi}] and reads [{now[0]}, {now[1]}] after the search")
+        elif case.get('second'):
+            # the caller reuses its Range object for another search over other items
+            out.label('range-object-reused')
+            its2 = mk(case['second'])
+            m2 = min(x[-1][0] for x in case['second'])
+            with guard('second IterativeTighteningSearch.search with the same Range object'):
+                s2 = IterativeTighteningSearch(iter(its2), initial_bounds=known)
+                best2 = s2.search()
+                b2 = s2.bounds()
+            if best2 is None or best2.final != m2 or not (b2.definitive() and b2.lower_bound == m2):
+                out.fail('second-search-wrong', f"second search with the same Range [{lo}, {hi}] over {case['second']!r} returned "
+                                                f"{best2!r} with bounds {b2}, the minimum is {m2} (first search: {stepss!r})")
     if best is None:
         out.fail('search-no-result', f"search() returned None for {stepss!r}")
     else:
@@ -287,5 +337,7 @@ def check(case):
         out.label('known-bounds', 'known-bounds-tight' if m in case['initial'] else 'known-bounds-loose')
     if any(s[0][1] is None for s in stepss):
         out.label('unbounded-start')
+    if falsy:
+        out.label('falsy-items')
     out.info = {'finals': finals}
     return out
